@@ -3,9 +3,11 @@
   Property theorems only.  Model: Model/Linear.lean (`additive`, `homogeneous`, `isLinear`,
   `isBilinear` = `is_linear_expression` and the verdicts of LinearForm / BilinearForm), using
   Model/Subst.lean, Model/Calc.lean (operator constructors) and Model/RingEq.lean (comparison).
-  Helpers: Lemmas/Linear.lean, Lemmas/RingEq.lean, Sem/Instances.lean (polynomial DRing).
+  Helpers: Lemmas/Linear.lean, Lemmas/LinearSound.lean, Lemmas/LinearProduct.lean (product arguments,
+  sums of integrals, absent arguments, the one-tag variant), Lemmas/RingEq.lean,
+  Sem/Instances.lean (polynomial DRing).
 -/
-import SympdeModel.Lemmas.LinearSound
+import SympdeModel.Lemmas.LinearProduct
 namespace Sympde.Linear
 open E
 open Sympde.Sub
@@ -194,6 +196,185 @@ theorem reject_sound_nonlinear_fn (d : Nat) (u : String) (k : Kind) (dom : Strin
   simp only [denG, denGProd, alpha, l0, refute_sf, refute_cst, refute_fn, map_mul, map_one, evalAt_C, mul_one]
   norm_num
 
+/-! ### an argument group that does not occur: the integrand is constant in it -/
+
+/-- **reject_sound_argfree** — "does not depend on the argument: constant term".  Whatever the
+    (product) argument is: if ONE integral of the form does not contain any of its components, and
+    is not zero (in some polynomial interpretation of its symbols), the verdict is False.  This is
+    the case of a linear form without test function, of a bilinear form without trial function, and
+    of a single integral of a domain + boundary sum that lacks them. -/
+theorem reject_sound_argfree (d : Nat) (args : List E) (ints : List (String × E))
+    (hargs : ∀ a ∈ args, isFn a = true) (hall : ∀ p ∈ ints, OpFree p.2 = true)
+    (p : String × E) (hp : p ∈ ints) (hfree : occurs args p.2 = false)
+    (sfv : String → PolyK) (vfv : String → Nat → PolyK)
+    (hne : denG (polyDRing sfv vfv (fun _ => 2)) d false p.2 0 0 ≠ 0) :
+    isLinear d args ints = .ok false := by
+  apply reject_of_refutation_ints (polyDRing sfv vfv (fun _ => 2)) d args ints hargs hall p hp
+  rw [subst_argfree args _ p.2 (by rw [length_mulVals]) hfree,
+    subst_argfree args _ p.2 (by rw [length_freshList]) hfree]
+  intro h
+  apply hne
+  have hc : (polyDRing sfv vfv (fun _ => 2)).cst "alpha#" = (2 : PolyK) := by
+    show MvPolynomial.C (2 : ℚ) = 2
+    exact map_ofNat MvPolynomial.C 2
+  rw [hc] at h
+  linear_combination (-1 : PolyK) * h
+
+/-- a linear form whose integrand is a product of two coordinates — no test function at all — is
+    rejected, for every (product) argument. -/
+theorem reject_sound_no_test_function (d : Nat) (args : List E) (hargs : ∀ a ∈ args, isFn a = true)
+    (dom : String) (c1 c2 : Coord) :
+    isLinear d args [(dom, mul [sym c1.name, sym c2.name])] = .ok false := by
+  apply reject_sound_argfree d args _ hargs (by intro p hp; simp at hp; subst hp; rfl)
+    (dom, mul [sym c1.name, sym c2.name]) (by simp) _ (fun _ => 0) (fun _ _ => 0)
+  · apply ne_of_evalAt (fun _ => 1)
+    simp [denG, denGProd, polyDRing, polySym, Coord.ofName_name, evalAt]
+  · have h1 := any_eqb_nonfn args hargs (mul [sym c1.name, sym c2.name]) rfl
+    have h2 := any_eqb_nonfn args hargs (sym c1.name) rfl
+    have h3 := any_eqb_nonfn args hargs (sym c2.name) rfl
+    simp only [occurs, occursList, h1, h2, h3, Bool.or_self]
+
+/-- a bilinear form whose integrand `x·v` contains no trial function is rejected (the trial side
+    is tested first and fails). -/
+theorem reject_sound_no_trial_function (d : Nat) (u v : String) (k k' : Kind) (tests : List E) (dom : String)
+    (c : Coord) (huv : u ≠ v) :
+    isBilinear d [sf u k] tests [(dom, mul [sym c.name, sf v k'])] = .ok false := by
+  apply isBilinear_false_of_trials
+  have hargs : ∀ a ∈ [sf u k], isFn a = true := by intro a ha; simp at ha; subst ha; rfl
+  apply reject_sound_argfree d _ _ hargs (by intro p hp; simp at hp; subst hp; rfl)
+    (dom, mul [sym c.name, sf v k']) (by simp) _ (fun _ => 1) (fun _ _ => 0)
+  · apply ne_of_evalAt (fun _ => 1)
+    simp [denG, denGProd, polyDRing, polySym, Coord.ofName_name, evalAt]
+  · simp [occurs, occursList, eqb, huv]
+
+/-- in a domain + boundary sum it is enough that ONE integral lacks the trial function:
+    `∫_Ω u·v + ∫_Γ x·v` is rejected. -/
+theorem reject_sound_no_trial_function_in_one_integral (d : Nat) (u v : String) (k k' : Kind) (tests : List E)
+    (dom bnd : String) (c : Coord) (huv : u ≠ v) :
+    isBilinear d [sf u k] tests [(dom, mul [sf u k, sf v k']), (bnd, mul [sym c.name, sf v k'])] = .ok false := by
+  apply isBilinear_false_of_trials
+  have hargs : ∀ a ∈ [sf u k], isFn a = true := by intro a ha; simp at ha; subst ha; rfl
+  apply reject_sound_argfree d _ _ hargs (by intro p hp; simp at hp; rcases hp with rfl | rfl <;> rfl)
+    (bnd, mul [sym c.name, sf v k']) (by simp) _ (fun _ => 1) (fun _ _ => 0)
+  · apply ne_of_evalAt (fun _ => 1)
+    simp [denG, denGProd, polyDRing, polySym, Coord.ofName_name, evalAt]
+  · simp [occurs, occursList, eqb, huv]
+
+/-! ### product arguments: different components get different fresh functions -/
+
+/-- **fresh_functions_distinct** — the functions substituted for two different components of a
+    product argument are different, also when the components are of the same kind (the tag is
+    generated inside the loop over the arguments, expr.py:761-762). -/
+theorem fresh_functions_distinct (pre : String) (args : List E) (hargs : ∀ a ∈ args, isFn a = true)
+    (i j : Nat) (hi : i < args.length) (hj : j < args.length) (hij : i ≠ j) :
+    (freshList pre args)[i]'(by rw [length_freshList]; exact hi)
+      ≠ (freshList pre args)[j]'(by rw [length_freshList]; exact hj) := by
+  rw [freshList_getElem pre args i hi, freshList_getElem pre args j hj]
+  exact fresh_ne pre i j _ _ (hargs _ (List.getElem_mem hi)) (hargs _ (List.getElem_mem hj)) hij
+
+/-- **reject_sound_component_product** — the product `u₁·u₂` of two components of a product
+    argument is rejected. -/
+theorem reject_sound_component_product (d : Nat) (u1 u2 : String) (k1 k2 : Kind) (dom : String) (hne : u1 ≠ u2) :
+    isLinear d [sf u1 k1, sf u2 k2] [(dom, mul [sf u1 k1, sf u2 k2])] = .ok false := by
+  apply reject_of_refutation_ints refutePair d _ _ (pair_isFn u1 u2 k1 k2) (by intro p hp; simp at hp; subst hp; rfl)
+    (dom, mul [sf u1 k1, sf u2 k2]) (by simp)
+  have e1 : subst ([sf u1 k1, sf u2 k2].zip (mulVals [sf u1 k1, sf u2 k2])) (mul [sf u1 k1, sf u2 k2])
+      = mul [mul [alpha, l0 k1], mul [alpha, l1 k2]] := by
+    simp [mulVals_pair, subst, substList, lookup, eqb, hne]
+  have e2 : subst ([sf u1 k1, sf u2 k2].zip (freshList "l#" [sf u1 k1, sf u2 k2])) (mul [sf u1 k1, sf u2 k2])
+      = mul [l0 k1, l1 k2] := by
+    simp [fresh_pair, subst, substList, lookup, eqb, hne]
+  simp only [e1, e2]
+  apply ne_of_evalAt (fun _ => 1)
+  simp only [denG, denGProd, alpha, l0, l1, refutePair_cst, refutePair_l0, refutePair_l1, map_mul, map_ofNat, mul_one]
+  norm_num
+
+/-- **reject_sound_component_difference** — `u₁·(u₁ − u₂)`, non-linear in the product argument
+    `(u₁, u₂)` although it vanishes when the two components are identified, is rejected. -/
+theorem reject_sound_component_difference (d : Nat) (u1 u2 : String) (k : Kind) (dom : String) (hne : u1 ≠ u2) :
+    isLinear d [sf u1 k, sf u2 k] [(dom, mul [sf u1 k, add [sf u1 k, mul [num (-1) 1, sf u2 k]]])] = .ok false := by
+  apply reject_of_refutation_ints refutePair d _ _ (pair_isFn u1 u2 k k) (by intro p hp; simp at hp; subst hp; rfl)
+    (dom, mul [sf u1 k, add [sf u1 k, mul [num (-1) 1, sf u2 k]]]) (by simp)
+  have e1 : subst ([sf u1 k, sf u2 k].zip (mulVals [sf u1 k, sf u2 k]))
+        (mul [sf u1 k, add [sf u1 k, mul [num (-1) 1, sf u2 k]]])
+      = mul [mul [alpha, l0 k], add [mul [alpha, l0 k], mul [num (-1) 1, mul [alpha, l1 k]]]] := by
+    simp [mulVals_pair, subst, substList, lookup, eqb, hne]
+  have e2 : subst ([sf u1 k, sf u2 k].zip (freshList "l#" [sf u1 k, sf u2 k]))
+        (mul [sf u1 k, add [sf u1 k, mul [num (-1) 1, sf u2 k]]])
+      = mul [l0 k, add [l0 k, mul [num (-1) 1, l1 k]]] := by
+    simp [fresh_pair, subst, substList, lookup, eqb, hne]
+  simp only [e1, e2]
+  apply ne_of_evalAt (fun _ => 1)
+  simp only [denG, denGSum, denGProd, alpha, l0, l1, refutePair_cst, refutePair_l0, refutePair_l1, map_mul, map_add,
+    map_ofNat, evalAt_algebraMap, mul_one, add_zero]
+  norm_num
+
+/-- **reject_sound_difference_square** — `(v₁ − v₂)²` is rejected. -/
+theorem reject_sound_difference_square (d : Nat) (v1 v2 : String) (k : Kind) (dom : String) (hne : v1 ≠ v2) :
+    isLinear d [sf v1 k, sf v2 k] [(dom, pow (add [sf v1 k, mul [num (-1) 1, sf v2 k]]) (num 2 1))] = .ok false := by
+  apply reject_of_refutation_ints refutePair d _ _ (pair_isFn v1 v2 k k) (by intro p hp; simp at hp; subst hp; rfl)
+    (dom, pow (add [sf v1 k, mul [num (-1) 1, sf v2 k]]) (num 2 1)) (by simp)
+  have e1 : subst ([sf v1 k, sf v2 k].zip (mulVals [sf v1 k, sf v2 k]))
+        (pow (add [sf v1 k, mul [num (-1) 1, sf v2 k]]) (num 2 1))
+      = pow (add [mul [alpha, l0 k], mul [num (-1) 1, mul [alpha, l1 k]]]) (num 2 1) := by
+    simp [mulVals_pair, subst, substList, lookup, eqb, hne]
+  have e2 : subst ([sf v1 k, sf v2 k].zip (freshList "l#" [sf v1 k, sf v2 k]))
+        (pow (add [sf v1 k, mul [num (-1) 1, sf v2 k]]) (num 2 1))
+      = pow (add [l0 k, mul [num (-1) 1, l1 k]]) (num 2 1) := by
+    simp [fresh_pair, subst, substList, lookup, eqb, hne]
+  simp only [e1, e2]
+  apply ne_of_evalAt (fun _ => 1)
+  simp only [denG, denGSum, denGProd, powSem, PD.intLit, alpha, l0, l1, refutePair_cst, refutePair_l0, refutePair_l1,
+    map_mul, map_add, map_pow, map_ofNat, evalAt_algebraMap, mul_one, add_zero]
+  norm_num
+
+/-- the same inside a bilinear form: `u₁·(u₁ − u₂)·v` over the trial functions `(u₁, u₂)`. -/
+theorem reject_sound_component_difference_bilinear (d : Nat) (u1 u2 v : String) (k k' : Kind) (tests : List E)
+    (dom : String) (hne : u1 ≠ u2) (h1 : u1 ≠ v) (h2 : u2 ≠ v) :
+    isBilinear d [sf u1 k, sf u2 k] tests
+      [(dom, mul [sf u1 k, add [sf u1 k, mul [num (-1) 1, sf u2 k]], sf v k'])] = .ok false := by
+  apply isBilinear_false_of_trials
+  apply reject_of_refutation_ints refutePair d _ _ (pair_isFn u1 u2 k k) (by intro p hp; simp at hp; subst hp; rfl)
+    (dom, mul [sf u1 k, add [sf u1 k, mul [num (-1) 1, sf u2 k]], sf v k']) (by simp)
+  have e1 : subst ([sf u1 k, sf u2 k].zip (mulVals [sf u1 k, sf u2 k]))
+        (mul [sf u1 k, add [sf u1 k, mul [num (-1) 1, sf u2 k]], sf v k'])
+      = mul [mul [alpha, l0 k], add [mul [alpha, l0 k], mul [num (-1) 1, mul [alpha, l1 k]]], sf v k'] := by
+    simp [mulVals_pair, subst, substList, lookup, eqb, hne, h1, h2]
+  have e2 : subst ([sf u1 k, sf u2 k].zip (freshList "l#" [sf u1 k, sf u2 k]))
+        (mul [sf u1 k, add [sf u1 k, mul [num (-1) 1, sf u2 k]], sf v k'])
+      = mul [l0 k, add [l0 k, mul [num (-1) 1, l1 k]], sf v k'] := by
+    simp [fresh_pair, subst, substList, lookup, eqb, hne, h1, h2]
+  simp only [e1, e2]
+  apply ne_of_evalAt (fun _ => 1)
+  simp only [denG, denGSum, denGProd, alpha, l0, l1, refutePair_cst, refutePair_l0, refutePair_l1, map_mul, map_add,
+    map_ofNat, evalAt_algebraMap, mul_one, add_zero]
+  rcases refutePair_sf v with h | h <;> rw [h] <;> simp only [map_ofNat, map_one] <;> norm_num
+
+/-! ### why the distinctness matters: the variant with one tag for all the arguments
+
+  `isLinearShared` (Lemmas/LinearProduct.lean) replaces every component of the same kind by the
+  same fresh function, i.e. tests additivity and homogeneity on the diagonal `u₁ = u₂` only.  It
+  coincides with the test for a single argument and accepts integrands that are not linear. -/
+
+def exU1 : E := sf "u1" .h1
+def exU2 : E := sf "u2" .h1
+def exV1 : E := sf "v1" .h1
+def exV2 : E := sf "v2" .h1
+
+/-- **shared_tag_accepts_nonlinear** — counterexamples: with a single tag, `u₁·(u₁ − u₂)` and
+    `(v₁ − v₂)²` are accepted; the model (and the code) rejects them. -/
+theorem shared_tag_accepts_nonlinear :
+    (isLinearShared 2 [exU1, exU2] [("Omega", mul [exU1, add [exU1, mul [num (-1) 1, exU2]]])] = .ok true ∧
+      isLinear 2 [exU1, exU2] [("Omega", mul [exU1, add [exU1, mul [num (-1) 1, exU2]]])] = .ok false) ∧
+    (isLinearShared 2 [exV1, exV2] [("Omega", pow (add [exV1, mul [num (-1) 1, exV2]]) (num 2 1))] = .ok true ∧
+      isLinear 2 [exV1, exV2] [("Omega", pow (add [exV1, mul [num (-1) 1, exV2]]) (num 2 1))] = .ok false) :=
+  ⟨⟨by decide, reject_sound_component_difference 2 "u1" "u2" .h1 "Omega" (by decide)⟩,
+    ⟨by decide, reject_sound_difference_square 2 "v1" "v2" .h1 "Omega" (by decide)⟩⟩
+
+/-- for a single argument the one-tag variant is the test itself -/
+theorem shared_tag_same_on_single_argument (d : Nat) (a : E) (ints : List (String × E)) :
+    isLinearShared d [a] ints = isLinear d [a] ints := isLinearShared_single d a ints
+
 /- Goal (not proved): `reject_sound_full` — for every operator-free integrand `e` whose polynomial
    normal form in the argument and its derivatives has a monomial of argument-degree ≠ 1 there is an
    interpretation refuting additivity or homogeneity, hence `isLinear … = .ok false`; and the
@@ -214,5 +395,18 @@ example : isBilinear 2 [exU] [exV] [("Omega", mul [exU, exU, exV])] = .ok false 
 example : OpFree (add [mul [exFld, exV], mul [num 2 1, pd .x exV]]) = true := by decide
 example : additive 2 [exV] (add [mul [exFld, exV], mul [num 2 1, pd .x exV]]) = .ok true ∧
     homogeneous 2 [exV] (add [mul [exFld, exV], mul [num 2 1, pd .x exV]]) = .ok true := by decide
+
+/-! the fixed corpus of the harness, on the model -/
+example : isBilinear 2 [exU1, exU2] [exV1, exV2]
+    [("Omega", mul [exU1, add [exU1, mul [num (-1) 1, exU2]], exV1])] = .ok false := by decide
+example : isLinear 2 [exV1, exV2] [("Omega", mul [exFld, pow (add [exV1, mul [num (-1) 1, exV2]]) (num 2 1)])]
+    = .ok false := by decide
+example : isLinear 2 [exV] [("Omega", mul [sym "x", sym "y"])] = .ok false := by decide
+example : isBilinear 2 [exU] [exV] [("Omega", mul [sym "x", exV])] = .ok false := by decide
+example : isBilinear 2 [exU1, exU2] [exV1, exV2]
+    [("Omega", mul [sym "x", exFld, add [exU1, mul [num (-1) 1, exU2]], exV1]), ("Gamma", mul [exU2, exV2])]
+    = .ok true := by decide
+example : isLinearShared 2 [exU1, exU2]
+    [("Omega", mul [exU1, exU2])] = .ok false := by decide
 
 end Sympde.Linear
